@@ -39,6 +39,8 @@ func childMain(role string, args []string) int {
 		return childLocker(args)
 	case "housekeep":
 		return childHousekeep(args)
+	case "fakeagent":
+		return childFakeAgent(args)
 	}
 	fmt.Fprintf(os.Stderr, "unknown child role %q\n", role)
 	return 64
@@ -54,6 +56,8 @@ func run(c *vlib.Ctx) error {
 		return runLock(c)
 	case "C43":
 		return runHousekeep(c)
+	case "C35":
+		return runAgentClose(c)
 	}
 	return fmt.Errorf("driver process does not serve property %s", c.Prop)
 }
@@ -68,6 +72,8 @@ func replay(c *vlib.Ctx) error {
 		return replayLock(c)
 	case "C43":
 		return replayHousekeep(c)
+	case "C35":
+		return replayAgentClose(c)
 	}
 	return fmt.Errorf("driver process does not serve property %s", c.Prop)
 }
